@@ -38,7 +38,7 @@ ASSUMPTIONS = [
 ]
 DELETABLE = ("lines", "cuts", "writes")
 
-GOOD_LINES = ("\ufeff1;1;1;0;0;5", "\ufeff", "x\ufeffy", "1;1;1;0;0;20.5", "0;255;3;0;9;log message", "12;6;1;0;47;åäö ✓", "7;255;0;0;17;2.3.2", "日本語", "", " ", ";", "a" * 50)
+GOOD_LINES = ("1;1;1;0;0;1\r", "\r", "x\r\r", "\r1;1", "\ufeff1;1;1;0;0;5", "\ufeff", "x\ufeffy", "1;1;1;0;0;20.5", "0;255;3;0;9;log message", "12;6;1;0;47;åäö ✓", "7;255;0;0;17;2.3.2", "日本語", "", " ", ";", "a" * 50)
 BAD_BYTES = ("\xff\xfe", "\x80", "1;2;1;0;0;\xe9", "\xc3", "\xe2\x82", "\xf0\x9f", "abc\xffdef")
 
 
@@ -52,7 +52,7 @@ def budgets(tier: str) -> dict:
 def _read_case(draw) -> dict:
     lines = []
     for _ in range(draw(st.integers(1, 7))):
-        kind = draw(st.sampled_from(("good", "good", "good", "text", "bad", "bad", "nul", "long")))
+        kind = draw(st.sampled_from(("good", "good", "good", "text", "bad", "bad", "nul", "long", "long2")))
         if kind == "good":
             lines.append(["text", draw(st.sampled_from(GOOD_LINES))])
         elif kind == "text":
@@ -61,6 +61,8 @@ def _read_case(draw) -> dict:
             lines.append(["bytes", draw(st.one_of(st.sampled_from(BAD_BYTES), st.binary(min_size=1, max_size=6).map(lambda b: b.replace(b"\n", b"\xff").decode("latin-1"))))])
         elif kind == "nul":
             lines.append(["bytes", draw(st.sampled_from(("\x00", "1;2\x00;3", "\x00\x00")))])
+        elif kind == "long2":
+            lines.append(["long2", draw(st.sampled_from(("a", "\xe9", ";")))])
         else:
             lines.append(["long", draw(st.sampled_from(("a", "\xe9", ";")))])
     tail = draw(st.sampled_from(("", "", "1;2;3", "\xff", "x", "\xc3")))
@@ -73,6 +75,7 @@ def _read_case(draw) -> dict:
     ))
     return {
         "kind": "read", "lines": lines, "tail": tail, "limit": limit, "cuts": sorted(set(cuts)),
+        "transport": draw(st.sampled_from(("base", "tcp", "serial"))),
         "pre_read": draw(st.lists(st.booleans(), min_size=1, max_size=8)),
         "post_reads": draw(st.lists(st.integers(0, 3), min_size=1, max_size=8)),
     }
@@ -80,7 +83,8 @@ def _read_case(draw) -> dict:
 
 @st.composite
 def _write_case(draw) -> dict:
-    writes = draw(st.lists(st.one_of(st.sampled_from(GOOD_LINES), st.text(st.characters(exclude_categories=("Cs",)), max_size=30)).map(lambda s: s + "\n"), min_size=1, max_size=8))
+    longish = st.sampled_from(("1;1;1;0;47;" + "é" * 60, "12;6;1;0;47;" + "温度" * 40 + " end", "x" * 70 + "é", "é" * 33, "0;255;3;0;9;" + "log " * 100 + "ü"))
+    writes = draw(st.lists(st.one_of(st.sampled_from(GOOD_LINES), longish, st.text(st.characters(exclude_categories=("Cs",)), max_size=30)).map(lambda s: s + "\n"), min_size=1, max_size=8))
     return {"kind": "write", "writes": writes, "peer_closes_after": draw(st.one_of(st.none(), st.integers(0, 8)))}
 
 
@@ -145,6 +149,8 @@ def build_stream(case: dict) -> tuple[bytes, list[bytes]]:
             parts.append(text.encode("utf-8") + b"\n")
         elif kind == "bytes":
             parts.append(text.encode("latin-1").replace(b"\n", b"\xff") + b"\n")
+        elif kind == "long2":
+            parts.append(text.encode("latin-1") * (2 * limit + 37) + b"\n")
         else:
             parts.append(text.encode("latin-1") * (limit + 5) + b"\n")
     return b"".join(parts) + case["tail"].encode("latin-1").replace(b"\n", b""), parts
@@ -180,9 +186,31 @@ def _run_read(case: dict) -> Outcome:
     info = {"pending_across_feed": False}
 
     async def go() -> Outcome | None:
-        transport = MemTransport(limit)
-        await transport.connect()
-        reader = transport.mem_reader
+        import aiomysensors.transport.serial as serial_mod
+
+        which = case.get("transport", "base")
+        real_tcp, real_serial = asyncio.open_connection, serial_mod.open_serial_connection
+        holder = {}
+
+        async def fake_open(*args, **kwargs):
+            holder["reader"], writer, holder["mem"] = env.mem_stream_pair(limit)
+            return holder["reader"], writer
+
+        if which == "base":
+            transport = MemTransport(limit)
+            await transport.connect()
+            reader = transport.mem_reader
+        else:
+            # the concrete classes applications use, with their connection factory replaced by in-memory streams
+            transport = TCPTransport("gateway.invalid", 5003) if which == "tcp" else SerialTransport("/dev/ttyNONE", 115200)
+            asyncio.open_connection = fake_open
+            serial_mod.open_serial_connection = fake_open
+            try:
+                await transport.connect()
+            finally:
+                asyncio.open_connection = real_tcp
+                serial_mod.open_serial_connection = real_serial
+            reader = holder["reader"]
         pending: asyncio.Task | None = None
 
         async def attempt() -> tuple[str, object]:
